@@ -494,7 +494,32 @@ def run_C16(run):
                       "tools/layout/gen_C16.py; g++ <config flags>; tools/layout/to_coq.py; coqc (Gen_C16_<cfg> x16, A_C16_defs, Properties_C16)")
 
 
-TABLE = {"C16": run_C16, "C19": run_C19, "C06": run_C06, "C14": run_C14, "C18": run_C18, "C05": run_C05, "C07": run_C07, "C01": run_C01, "C13": run_C13, "C09": run_C09, "C04": run_C04, "C02": run_C02, "C10": run_C10, "C08": run_C08, "C17": run_C17, "C12": run_C12}
+# ------------------------------------------------------------------------------------------ C11
+def run_C11(run):
+    stats = par([lambda: run.build_trace("tr_C11", "Gen_C11", ["-DVT_NO_ASSERT"])])
+    trace_cov(run, stats)
+    gens = [os.path.join(run.dir, "Gen_C11.v")] if os.path.exists(os.path.join(run.dir, "Gen_C11.v")) else []
+    gc = os.path.join(run.dir, "Gen_C11_consts.v")
+    rc, out, err, dt = core.sh(["python3", os.path.join(core.VERIF, "tools", "trace", "gen_C11_consts.py"), core.REPO, gc], timeout=60)
+    if rc != 0:
+        run.broken.append({"what": "constants translator gen_C11_consts.py cannot read the constant definitions", "detail": (err or out)[-1500:]}); open(gc, "w").write("(* translator failed *)\n")
+    else: run.cov["constants_translated"] = out.strip()
+    run.prove(gens + [gc], [], ["C11/P_C11_real.v", "C11/P_C11_nan.v", "C11/P_C11_round.v", "C11/P_C11_consts.v"], "C11/Properties_C11.v", timeout=900)
+    run.run_corr("impl_C11.cpp", [run.seed, run.tier], flags=["-DNDEBUG"])
+    fails = oracle_sweep(run, "C11", [("all", ["-pthread", "-DNDEBUG"])], run.tier, opt="-O1")
+    run.fails = run.triage(fails)
+    run.assumptions = ["traced functions: real-number semantics (exact arithmetic; floor/ceil/trunc/round are Flocq's Zfloor/Zceil/Ztrunc/ZnearestA); the rounding of each float operation (e.g. fract(-1e-8f) = 1) is outside the theorems and is covered by the oracle, which recomputes the GLSL formula in the same type",
+                       "NaN semantics for fmin/fmax/fclamp: a value is a real number or NaN; infinities and signed zeros are not distinguished (oracle: the full special-value lattice incl. +-0, +-inf, NaN to the 4th power)",
+                       "roundEven / iround / uround convert a float to a concrete int and cannot be traced: hand model with exact rational arithmetic (exact for |x| < 2^31), tied by the correspondence check (ties k+0.5 and their neighbours, integers, small values, both signs; float and double; scalar and vector overloads)",
+                       "isnan / isinf / frexp / ldexp / modf / the bit casts are library calls or memcpy: oracle only (every float pattern in the thorough tier)",
+                       "constants: the true values are Coq's PI, sqrt, exp, ln, cos; euler (Euler-Mascheroni) has no definition available and is compared with published digits by the oracle only; the double constant is the correctly rounded double of the literal and the float constant that double rounded to binary32 (what the C++ conversions do)"]
+    run.samples.append("oracle: every 1531st float pattern (thorough: all 2^32) for floor, ceil, trunc, round, roundEven, fract, modf, frexp/ldexp, abs, sign, isnan, isinf, iround, uround, wrap modes, bit casts; lattice {+-0, +-denorm_min, +-min, +-0.5, +-pred(0.5), +-1, +-1.5, +-2.5, +-2^23, +-2^24, +-2^31, +-max, +-inf, NaN}^4 and ties k+0.5 with neighbours for the n-ary functions, float and double; 27 constants x 2 types")
+    return run.finish(TRUST_COMMON + TRUST_H[-3:] + ["tools/trace/gen_C11_consts.py: reads the literal constants from the source text", "Interval tactic (120-bit software interval arithmetic; standard-library Uint63 axioms) for the constants", "oracle_C11.cpp: long-double / integer references (violation search)"],
+                      "theorems: every real argument (traced functions), every real-or-NaN operand combination (fmin/fmax/fclamp), every rational argument (roundEven, iround), every constant x {float, double}",
+                      CHECKER + "; tools/corr/impl_C11 | coq/extract/corr_model")
+
+
+TABLE = {"C11": run_C11, "C16": run_C16, "C19": run_C19, "C06": run_C06, "C14": run_C14, "C18": run_C18, "C05": run_C05, "C07": run_C07, "C01": run_C01, "C13": run_C13, "C09": run_C09, "C04": run_C04, "C02": run_C02, "C10": run_C10, "C08": run_C08, "C17": run_C17, "C12": run_C12}
 
 
 def replay(pid, path):
